@@ -43,7 +43,7 @@ def run(ctx):
     for n in (10100, 12300, 15000, 16001, 65500, 99999, 100100, 123400, 199999):
         fills.append((0x61, n))
     # beyond one and two MiB (buffers that are kept, shrunk or replaced above a size threshold)
-    for n in ((1 << 20) + 1, (1 << 21) + rng.randrange(1000)) + (((1 << 22) + 5, 10 ** 7) if thorough else ()):
+    for n in ((1 << 20) + 1, (1 << 21) + rng.randrange(1000), 10 ** 7) + (((1 << 22) + 5, 10 ** 7 + 1, 10 ** 8) if thorough else ()):
         fills.append((rng.choice([0x61, 0xff]), n))
     # (the harness issues the calls of one batch in a pseudo-random order inside persistent processes, so small messages
     # are also hashed AFTER very large ones in the same process/thread)
